@@ -1,1 +1,247 @@
-//! c19 — harnesses not written yet.
+//! C19 — ant-colony generation yields valid tours; pheromone updates are well-formed.
+//! Code: mahf::components::generative::{PheromoneMatrix::{new,index,index_mut,mul_assign},AsPheromoneUpdate::execute,MinMaxPheromoneUpdate::{from_params,execute},AcoGeneration::{init,execute}}
+//! Out: more than 3 cities; tour lengths outside [2^-10, 2^20], trails above 2^20; general real alpha/beta (powf is over-approximated by the engine: alpha = beta = 1 with an exact stub); tour generation is thorough-tier best effort (rand's WeightedIndex machinery: the single-draw roulette probe ran out of 16 GB)
+//! Assume: inductive one-step from an arbitrary pheromone matrix satisfying the reachable-state invariant (finite, non-negative; within [min,max] for the max-min variant); evaporation 0.5 (so that evaporate-then-deposit is recomputed bit-exactly without a symbolic multiplier); population = [greedy tour, one sampled tour]
+use mahf::components::generative::{AcoGeneration, AsPheromoneUpdate, MinMaxPheromoneUpdate, PheromoneMatrix};
+use mahf::components::Component;
+use mahf::state::common::Populations;
+use mahf::{Individual, State};
+
+use crate::problems::{obj, Tsp3};
+use crate::rng::sym_random;
+use crate::sym;
+
+const BIG: f64 = 1048576.0;
+
+fn sym_matrix(lo: f64, hi: f64, m: &mut [[f64; 3]; 3]) -> PheromoneMatrix {
+    let mut pm = PheromoneMatrix::new(3, 0.0);
+    let mut a = 0;
+    while a < 3 {
+        let mut b = 0;
+        while b < 3 {
+            let v = sym::f64();
+            sym::assume(v >= lo && v <= hi);
+            m[a][b] = v;
+            pm[a][b] = v;
+            b += 1;
+        }
+        a += 1;
+    }
+    pm
+}
+
+/// Matrix with two symbolic trails — (0,2) lies on the sampled tour, (0,1) does not — and 1.0 elsewhere.
+fn sparse_matrix(lo: f64, hi: f64, m: &mut [[f64; 3]; 3]) -> PheromoneMatrix {
+    let mut pm = PheromoneMatrix::new(3, 1.0);
+    *m = [[1.0; 3]; 3];
+    let (v, w) = (sym::f64(), sym::f64());
+    sym::assume(v >= lo && v <= hi && w >= lo && w <= hi);
+    m[0][2] = v;
+    pm[0][2] = v;
+    m[0][1] = w;
+    pm[0][1] = w;
+    pm
+}
+
+/// @h tier=quick bound="3x3 matrix: new, Index, IndexMut, MulAssign with symbolic values" unwind=11 cost=2
+#[cfg_attr(kani, kani::proof)]
+#[cfg_attr(kani, kani::unwind(11))]
+pub fn h_c19_matrix_ops() {
+    let v = sym::finite_f64();
+    let mut pm = PheromoneMatrix::new(3, v);
+    let mut a = 0;
+    while a < 3 {
+        assert!(pm[a].len() == 3, "a row per city");
+        let mut b = 0;
+        while b < 3 {
+            assert!(pm[a][b].to_bits() == v.to_bits(), "every trail starts at the initial value");
+            b += 1;
+        }
+        a += 1;
+    }
+    let (x, i, j) = (sym::finite_f64(), sym::upto(2) as usize, sym::upto(2) as usize);
+    pm[i][j] = x;
+    let mut a = 0;
+    while a < 3 {
+        let mut b = 0;
+        while b < 3 {
+            let want = if a == i && b == j { x } else { v };
+            assert!(pm[a][b].to_bits() == want.to_bits(), "a write changes exactly the addressed trail");
+            b += 1;
+        }
+        a += 1;
+    }
+    pm *= 0.5;
+    assert!(pm[i][j].to_bits() == (x * 0.5).to_bits() && pm[(i + 1) % 3][j].to_bits() == (v * 0.5).to_bits(), "scaling evaporates every trail by the factor");
+    vcover!(true, "reached");
+}
+
+fn aco_state(pm: PheromoneMatrix, o_greedy: f64, o_ant: f64) -> State<'static, Tsp3> {
+    let mut pops = Populations::<Tsp3>::new();
+    pops.push(vec![Individual::new(vec![0usize, 1, 2], obj(o_greedy)), Individual::new(vec![0usize, 2, 1], obj(o_ant))]);
+    let mut s: State<Tsp3> = State::new();
+    s.insert(pm);
+    s.insert(pops);
+    s
+}
+/// edges between consecutive cities of the sampled tour 0 -> 2 -> 1
+fn rewarded(a: usize, b: usize) -> bool {
+    (a == 0 && b == 2) || (a == 2 && b == 0) || (a == 2 && b == 1) || (a == 1 && b == 2)
+}
+
+/// @h tier=thorough bound="3 cities, any finite non-negative matrix <= 2^20, sampled tour 0-2-1 with any length in [2^-10, 2^20], evaporation 0.5, decay 1" unwind=11 cost=9 mem=40 timeout=3600
+#[cfg_attr(kani, kani::proof)]
+#[cfg_attr(kani, kani::unwind(11))]
+pub fn h_c19_as_update() {
+    as_update(true)
+}
+/// @h tier=quick bound="3 cities, trails (0,2) [on the sampled tour] and (0,1) [not on it] any finite value in [0, 2^20], others 1; sampled tour 0-2-1 of length 4; evaporation 0.5, decay 1" unwind=11 cost=6 mem=16 timeout=900
+#[cfg_attr(kani, kani::proof)]
+#[cfg_attr(kani, kani::unwind(11))]
+pub fn h_c19_as_update_sparse() {
+    as_update(false)
+}
+fn as_update(full: bool) {
+    let mut m = [[0.0; 3]; 3];
+    let pm = if full { sym_matrix(0.0, BIG, &mut m) } else { sparse_matrix(0.0, BIG, &mut m) };
+    let (og, oa) = if full { (sym::finite_f64(), sym::finite_f64()) } else { (3.0, 4.0) };
+    sym::assume(og >= 0.0009765625 && og <= BIG && oa >= 0.0009765625 && oa <= BIG);
+    let mut s = aco_state(pm, og, oa);
+    let c = AsPheromoneUpdate::from_params(0.5, 1.0);
+    assert!(Component::<Tsp3>::require(&c, &Tsp3, &s.requirements()).is_ok(), "matrix present");
+    assert!(Component::<Tsp3>::execute(&c, &Tsp3, &mut s).is_ok(), "the update succeeds");
+    {
+        let pm = s.borrow::<PheromoneMatrix>();
+        let delta = 1.0 / oa;
+        let mut a = 0;
+        while a < 3 {
+            let mut b = 0;
+            while b < 3 {
+                let want = if rewarded(a, b) { m[a][b] * 0.5 + delta } else { m[a][b] * 0.5 };
+                assert!(pm[a][b].to_bits() == want.to_bits(), "every trail is evaporated first; exactly the edges between consecutive cities of the sampled tours are then reinforced, symmetrically, by decay / tour length");
+                assert!(pm[a][b].is_finite() && pm[a][b] >= 0.0, "trails stay finite and non-negative");
+                b += 1;
+            }
+            a += 1;
+        }
+    }
+    vcover!(true, "reached");
+    std::mem::forget(s);
+}
+
+fn mmas(check_unrewarded: bool, full: bool) {
+    let (lo, hi) = (0.125, 8.0);
+    let mut m = [[0.0; 3]; 3];
+    let pm = if full { sym_matrix(lo, hi, &mut m) } else { sparse_matrix(lo, hi, &mut m) };
+    let (og, oa) = if full { (sym::finite_f64(), sym::finite_f64()) } else { (3.0, 4.0) };
+    sym::assume(og >= 0.0009765625 && og <= BIG && oa >= 0.0009765625 && oa <= BIG);
+    let mut s = aco_state(pm, og, oa);
+    let c = match MinMaxPheromoneUpdate::from_params(0.5, hi, lo) {
+        Ok(c) => c,
+        Err(_) => {
+            assert!(false, "min < max is accepted");
+            return;
+        }
+    };
+    assert!(Component::<Tsp3>::execute(&c, &Tsp3, &mut s).is_ok(), "the update succeeds");
+    {
+        let pm = s.borrow::<PheromoneMatrix>();
+        let delta = 1.0 / oa;
+        let mut a = 0;
+        while a < 3 {
+            let mut b = 0;
+            while b < 3 {
+                if rewarded(a, b) {
+                    let raw = m[a][b] * 0.5 + delta;
+                    let want = if raw < lo { lo } else if raw > hi { hi } else { raw };
+                    assert!(pm[a][b].to_bits() == want.to_bits(), "max-min: rewarded edges are evaporated, reinforced by 1 / tour length and kept within the bounds");
+                } else if check_unrewarded {
+                    assert!(pm[a][b] >= lo && pm[a][b] <= hi, "max-min: every trail stays within the configured bounds");
+                } else {
+                    assert!(pm[a][b] <= m[a][b] && pm[a][b] >= 0.0, "max-min: other edges only evaporate");
+                }
+                b += 1;
+            }
+            a += 1;
+        }
+    }
+    vcover!(true, "reached");
+    std::mem::forget(s);
+}
+/// @h tier=thorough bound="max-min variant: rewarded edges, 3 cities, matrix within [1/8, 8], tour length in [2^-10, 2^20], evaporation 0.5" unwind=11 cost=9 mem=40 timeout=3600
+#[cfg_attr(kani, kani::proof)]
+#[cfg_attr(kani, kani::unwind(11))]
+pub fn h_c19_mmas_rewarded() {
+    mmas(false, true)
+}
+/// @h tier=quick bound="max-min variant, rewarded edges: trails (0,2),(0,1) any value in [1/8, 8], others 1; best sampled tour 0-2-1 of length 4" unwind=11 cost=6 mem=16 timeout=900
+#[cfg_attr(kani, kani::proof)]
+#[cfg_attr(kani, kani::unwind(11))]
+pub fn h_c19_mmas_rewarded_sparse() {
+    mmas(false, false)
+}
+/// @h tier=quick bound="max-min variant, ALL trails within [min,max] afterwards: trails (0,2),(0,1) any value in [1/8, 8], others 1" unwind=11 cost=6 mem=16 timeout=900
+#[cfg_attr(kani, kani::proof)]
+#[cfg_attr(kani, kani::unwind(11))]
+pub fn h_c19_mmas_bounds_sparse() {
+    mmas(true, false)
+}
+/// @h tier=thorough bound="max-min variant: ALL trails within [min,max] afterwards (pre-state within bounds)" unwind=11 cost=9 mem=40 timeout=3600
+#[cfg_attr(kani, kani::proof)]
+#[cfg_attr(kani, kani::unwind(11))]
+pub fn h_c19_mmas_bounds() {
+    mmas(true, true)
+}
+
+/// @h tier=quick bound="max-min constructor: every f64 min/max" unwind=3
+#[cfg_attr(kani, kani::proof)]
+#[cfg_attr(kani, kani::unwind(3))]
+pub fn h_c19_mmas_params() {
+    let (mn, mx) = (sym::f64(), sym::f64());
+    let r = MinMaxPheromoneUpdate::from_params(0.5, mx, mn);
+    assert!(r.is_ok() == (mn < mx), "the max-min update accepts exactly min < max");
+    vcover!(r.is_ok(), "accepted");
+    std::mem::forget(r);
+}
+
+#[cfg(kani)]
+fn powf_model(b: f64, e: f64) -> f64 {
+    if e == 1.0 {
+        b
+    } else if e == 0.0 {
+        1.0
+    } else {
+        kani::any()
+    }
+}
+/// @h tier=thorough bound="generation: 3 cities, 1 ant, alpha = beta = 1, any finite non-negative matrix <= 2^20; all draw sequences within 4 draws" unwind=8 cost=9 mem=40 timeout=3600
+#[cfg_attr(kani, kani::proof)]
+#[cfg_attr(kani, kani::unwind(8))]
+#[cfg_attr(kani, kani::stub(f64::powf, powf_model))]
+pub fn h_c19_generation() {
+    let mut m = [[0.0; 3]; 3];
+    let pm = sym_matrix(0.0, BIG, &mut m);
+    let mut pops = Populations::<Tsp3>::new();
+    pops.push(Vec::new());
+    let mut s: State<Tsp3> = State::new();
+    s.insert(pm);
+    s.insert(sym_random(4));
+    s.insert(pops);
+    let c = AcoGeneration::from_params(1, 1.0, 1.0, 1.0);
+    assert!(Component::<Tsp3>::execute(&c, &Tsp3, &mut s).is_ok(), "generation succeeds for every reachable pheromone state");
+    {
+        let p = s.populations();
+        let cur = p.current();
+        assert!(cur.len() == 2, "one greedy tour plus the requested number of sampled tours");
+        let mut i = 0;
+        while i < 2 {
+            let t = cur[i].solution();
+            assert!(t.len() == 3 && t[0] == 0, "each tour visits all cities and starts at city 0");
+            assert!((t[1] == 1 && t[2] == 2) || (t[1] == 2 && t[2] == 1), "each tour is a permutation of all cities");
+            assert!(!cur[i].is_evaluated(), "new tours are unevaluated");
+            i += 1;
+        }
+    }
+    vcover!(true, "reached");
+    std::mem::forget(s);
+}
